@@ -21,6 +21,8 @@ if not diff.strip() or not demos:
 demo = demos[0]
 pkg = "./" + os.path.dirname(demo) if os.path.dirname(demo) else "."
 tags = ["-tags", "verif"] if "go:build verif" in open(os.path.join(wt, demo)).read() else []
+if os.environ.get("SEED_RACE"):
+    tags = ["-race"] + tags  # the demonstration is a data race only the race detector shows
 # 1 suite with change (demo skipped), twice
 ok = True
 for i in range(2):
